@@ -62,6 +62,16 @@ MassDefinite(c) == c.phys \in {"elastic", "thermal"}      \* beams: rotational i
 
 Expect(c) == [cfg |-> c, kernel |-> ExpKernel(c), dofn |-> DofN(c), massSum |-> ExpMassSum(c), massFrom |-> IF c.shape = "round" THEN "mesh" ELSE "domain", massDefinite |-> MassDefinite(c)]
 
+(* large element groups (more than 2^15 elements, a number that is not a multiple of 2^15): whatever is computed group by group   *)
+(* or block by block must cover every element.  Attributes that need no dense analysis: the constant / rigid modes are in the      *)
+(* kernel, no dof of a used node has a zero diagonal entry, the energy of a unit linear field is k x measure (heat) and the mass   *)
+(* total is rho x measure.  LargeConfigs are emitted separately ("LARGE") and replayed on structured grids.                         *)
+LargeConfigs == [phys : {"elastic", "thermal"}, elem : {"TRI3", "QUAD4"}, cells : {182}]      \* 182 x 182 cells: 33 124 QUAD4 / 66 248 TRI3
+LargeExpect(c) == [cfg |-> c, elements |-> IF c.elem = "QUAD4" THEN c.cells * c.cells ELSE 2 * c.cells * c.cells, kernel |-> IF c.phys = "elastic" THEN 3 ELSE 1,
+                   measure |-> One, unitFieldEnergy |-> IF c.phys = "thermal" THEN Two ELSE Zero]      \* unit square, conductivity 2: int k |grad x|^2 = 2
+EmitLarge == (Emit /\ cfg.phys = "elastic" /\ cfg.dim = 2 /\ cfg.elem = "TRI3" /\ cfg.unit = 0 /\ cfg.shape = "box" /\ cfg.thick = One) =>
+                 \A c \in LargeConfigs : PrintT(<<"LARGE", ToJson(LargeExpect(c))>>)
+
 Init == cfg \in {c \in Configs : Valid(c)}
 Next == UNCHANGED cfg
 Spec == Init /\ [][Next]_vars
